@@ -65,25 +65,6 @@ example : dims 31 2 = .ok (2147483648, 0) ∧ dimsOk 31 2 = false := ⟨rfl, by 
 
 /-! ## shape of a returned map -/
 
-theorem beginning_shape {xs r : Bytes} {m : Map} (h : BeginOk xs m r) :
-    ∃ k, k < 32 ∧ m.width = 2 ^ k ∧ m.tiles.length = m.width * m.height ∧ m.height < W32 ∧ m.width * m.height < W32 := by
-  obtain ⟨hd, hh, _, hok, hb⟩ := h.hd
-  obtain ⟨_, _, _, hlt, _, _⟩ := pHeader_ok hh
-  obtain ⟨hlg, hprod, _⟩ := dims_of_ok hlt hok
-  unfold pBody at hb
-  obtain ⟨tiles, r1, ht, hb⟩ := bind_ok hb
-  obtain ⟨clip, r2, _, hb⟩ := bind_ok hb
-  obtain ⟨srcs, r3, _, hb⟩ := bind_ok hb
-  obtain ⟨mk, r4, _, hb⟩ := bind_ok hb
-  obtain ⟨_, r5, _, hb⟩ := bind_ok hb
-  obtain ⟨maps, r6, _, hb⟩ := bind_ok hb
-  obtain ⟨ters, r7, _, hb⟩ := bind_ok hb
-  obtain ⟨rfl, _⟩ := pure_ok hb
-  have hl := many_ok_length _ ht
-  refine ⟨hd.lg, hlg, rfl, ?_, hlt, ?_⟩
-  · simp only [hl]; exact Nat.mul_comm _ _
-  · simp only []; rw [Nat.mul_comm]; exact hprod
-
 /-- a returned map has a power-of-two width (2^k, k < 32) and exactly width × height tiles — the product taken in ℕ,
     not modulo 2^32 -/
 theorem C07_shape (b : Bytes) (m : Map) (n : Nat) (h : read b = .ok m n) :
@@ -105,12 +86,6 @@ theorem C07_shape_saved (b : Bytes) (m : Map) (n : Nat) (h : readSavedGame b = .
   exact ⟨k, hk, hw, hl⟩
 
 /-! ## prefixes are refused, never returned as a smaller success -/
-
-theorem prefix_strict_of_local {p : Parser (Except Fault Map)} (hp : Local p) (b : Bytes) (m : Map) (n : Nat)
-    (h : outcome p b = .ok m n) (k : Nat) (hk : k < n) : ∃ e, outcome p (b.take k) = .err e := by
-  obtain ⟨r, hpb, rfl⟩ := outcome_ok h
-  obtain ⟨e, he⟩ := hp.prefix_refused hpb k hk
-  exact ⟨e, outcome_of_err he⟩
 
 /-- every proper prefix that cuts into the bytes the map reader consumed is an ordinary error -/
 theorem C07_prefix_strict (b : Bytes) (m : Map) (n : Nat) (h : read b = .ok m n) (k : Nat) (hk : k < n) :
